@@ -242,7 +242,7 @@ class Item:
             self.rewrites.append({"rule": "R6", "what": "%d restricted visibilities -> pub" % n})
         return self
 
-    def annotate_closures(self, types=None, default="i64", expect=None, only=None):
+    def annotate_closures(self, types=None, default="i64", expect=None, only=None, fn_sigs=None):
         """R3, generic: every closure `|a, b| BODY` with untyped identifier parameters that is passed as
         a call argument gets parameter types, a named result and a contract *derived mechanically from
         its own body text*:  requires (integer results) that BODY, read over mathematical integers, fits
@@ -295,6 +295,21 @@ class Item:
                 body = src[toks[j][2]:toks[k][1]].strip()
                 is_bool = bool(re.search(r"(>=|<=|==|!=|<|>|&&|\|\|)", re.sub(r"->", "", body)))
                 ps = ", ".join("%s: %s" % (p_, types.get(p_, default)) for p_ in params)
+                mcall = re.match(r"^([A-Za-z_][A-Za-z0-9_]*)\((.*)\)$", body, re.S)
+                if mcall and fn_sigs and mcall.group(1) in fn_sigs and "(" not in mcall.group(2):
+                    # closure whose body is a direct call of a function under contract: it inherits that contract
+                    # (call_requires / call_ensures), parameter types come from the callee's signature
+                    callee = mcall.group(1)
+                    ptypes, rtype = fn_sigs[callee]
+                    args = [a.strip() for a in mcall.group(2).split(",")]
+                    if len(args) == len(ptypes) and all(p_ in args for p_ in params):
+                        ps = ", ".join("%s: %s" % (p_, ptypes[args.index(p_)]) for p_ in params)
+                        tup = "(%s%s)" % (", ".join(args), "," if len(args) == 1 else "")
+                        new = ("|%s| -> (r: %s) requires call_requires(%s, %s), ensures call_ensures(%s, %s, r) { %s }"
+                               % (ps, rtype, callee, tup, callee, tup, body))
+                        edits.append((s, toks[k][1], new, body))
+                        i = k
+                        continue
                 if is_bool:
                     new = "|%s| -> (r: bool) ensures r == (%s) { %s }" % (ps, body, body)
                 else:
@@ -444,6 +459,29 @@ class Item:
                     raise ExtractionError("loop body not found")
             idx += 1
         raise ExtractionError("%s: loop #%d not found" % (self.name, ordinal))
+
+    def _loop_body(self, ordinal, fn_name=None):
+        toks, bi = self._body_open(fn_name)
+        src = self.text
+        cnt = 0
+        for idx in range(bi, len(toks)):
+            kind, s, e = toks[idx]
+            if kind == "ident" and src[s:e] in ("for", "while", "loop"):
+                cnt += 1
+                if cnt == ordinal:
+                    j = find_block_open(src, toks, idx + 1)
+                    if j is None:
+                        break
+                    return toks[j][2], toks[match_brace(src, toks, j)][1]
+        raise ExtractionError("%s: loop #%d not found" % (self.name, ordinal))
+
+    def insert_in_loop(self, ordinal, at_start, at_end, why, fn_name=None):
+        """Insert ghost/proof text right after the opening brace and right before the closing brace of the body of the
+        ordinal-th loop (no statement anchors, so edits of the body do not lose the proof hints)."""
+        a, b = self._loop_body(ordinal, fn_name)
+        self.text = self.text[:a] + "\n" + at_start + "\n" + self.text[a:b] + "\n" + at_end + "\n" + self.text[b:]
+        self.rewrites.append({"rule": "proof", "at": "loop #%d body start/end" % ordinal, "what": why})
+        return self
 
     def insert_at_body_start(self, text, why, fn_name=None):
         """Insert ghost/proof text right after the opening brace of the fn body (no statement anchor needed)."""
